@@ -104,6 +104,14 @@ func init() {
 		return nil
 	}
 	externals[rtPkg+".Tier"] = func(fr *frame, args []value) value { return ex(fr).cfg.Tier }
+	externals[rtPkg+".ReverseMaps"] = func(fr *frame, args []value) value {
+		on, ok := args[0].(bool)
+		if !ok {
+			panic(engineUnsupported{"rt.ReverseMaps needs a concrete bool (branch on the symbolic value first)"})
+		}
+		ex(fr).revMaps = on
+		return nil
+	}
 	externals[rtPkg+".Symbolic"] = func(fr *frame, args []value) value { return true }
 	externals[rtPkg+".Observe"] = func(fr *frame, args []value) value {
 		label := goString(args[0])
